@@ -343,15 +343,23 @@ package bus
 // OnTerminate: the table is detached and emptied inside the critical section; the detached copy is
 // private to this call (every element read after the release carries the obligation that the
 // protected field no longer refers to that array), each of its entries is sent one error message.
+// Every subscriber registered at the removal is told (termtold counts the termination notices
+// attempted by this call, termsubs the subscribers it detached), whatever happens to the others.
+//@ ghostfield termtold int counter
+//@ ghostfield termsubs int counter
 //@ func (o *signalHandler) OnTerminate()
 //@   tags C16 C12
 //@   requires !o.signalsMutex.lockw && o.signalsMutex.lockr == 0
-//@   modifies everything
+//@   modifies everything, o.termtold, o.termsubs
 //@   ensures[C16] !o.signalsMutex.lockw && o.signalsMutex.lockr == 0
 //@   ensures[C16] at_unlock(len(o.signals)) == 0
+//@   ghost_at_return o.termsubs := len(signals)
+//@   ensures[C16] o.termsubs == at_lock(len(o.signals)) && o.termtold == old(o.termtold) + o.termsubs
+//@   call sendTerminate#1: ghost o.termtold := o.termtold + 1
 //@   private signals[*]
 //@   loop 1:
 //@     invariant !o.signalsMutex.lockw && o.signalsMutex.lockr == 0
+//@     invariant o.termtold == old(o.termtold) + rangeindex + 1 && len(signals) == at_lock(len(o.signals))
 //@     invariant forall k int {signals[k]} :: 0 <= k && k < len(signals) ==> signals[k].context != nil
 
 // ---- exactly one answer, its own (C04)
